@@ -404,6 +404,7 @@ func runC16(r *ev.Run) {
 			}
 		}
 	}
+	runC16Harvest(r, rng.New(r.Seed, "C16", "harvest"))
 }
 
 func topClass(c string) string {
